@@ -18,6 +18,7 @@ uint64_t VF_X[4 * N];
 uint64_t VF_OUT[4 * N];
 static const uint64_t QS[4] = {VFT_Q1, VFT_Q2, VFT_Q3, VFT_Q4};
 
+#ifndef LEVELS
 static void mk_precomp(q120_ntt_precomp* p, int inverse) {
   p->n = N;
   if (!inverse) {
@@ -35,6 +36,7 @@ static void mk_precomp(q120_ntt_precomp* p, int inverse) {
   }
 }
 
+#endif
 #ifndef __CPROVER__
 static uint64_t mulmod(uint64_t a, uint64_t b, uint64_t q) { return (uint64_t)(((unsigned __int128)a * b) % q); }
 static uint64_t powmod(uint64_t a, uint64_t e, uint64_t q) {
@@ -50,6 +52,7 @@ static uint64_t powmod(uint64_t a, uint64_t e, uint64_t q) {
 static const uint64_t OMEGAS[4] = {OMEGA1, OMEGA2, OMEGA3, OMEGA4};
 #endif
 
+#ifndef LEVELS
 void h_ntt(void) {
   uint64_t* data = vf_alloc_words_raw(4 * N);
   for (unsigned i = 0; i < 4 * N; ++i) {
@@ -96,3 +99,128 @@ void h_ntt(void) {
 #endif
   VF_REACH();
 }
+
+#endif
+/* ---- C04: per-level interval induction for large n (-DLEVELS -DN=<n up to 65536> -DDIR=0|1).
+ * The real level functions of q120_ntt_avx2.c are applied, one level at a time, to a block of 4 (resp. 2 for the nn=2 level) fresh
+ * symbolic vectors with the level's real metadata entry (dumped from the builder of the working tree) and symbolic twiddle words
+ * (t1 << 32) + t.  The analysis (vf.alg.q120:check_ntt_levels) bounds the inputs of level l by the interval it derived for the outputs
+ * of level l-1 and the twiddle halves by the maxima of the real table: every butterfly of the real transform (the i = 0 kind without
+ * twiddle and the i >= 1 kind with twiddle) is an instance of the block's. */
+#ifdef LEVELS
+#include <immintrin.h>
+void ntt_iter_first(__m256i* const begin, const __m256i* const end, const q120_ntt_step_precomp* const itData, const __m256i* powomega);
+void ntt_iter_first_red(__m256i* const begin, const __m256i* const end, const q120_ntt_step_precomp* const itData, const __m256i* powomega,
+                        const q120_ntt_reduc_step_precomp* const reduc_precomp);
+void ntt_iter(const uint64_t nn, __m256i* const begin, const __m256i* const end, const q120_ntt_step_precomp* const itData, const __m256i* const powomega);
+void ntt_iter_red(const uint64_t nn, __m256i* const begin, const __m256i* const end, const q120_ntt_step_precomp* const itData, const __m256i* const powomega,
+                  const q120_ntt_reduc_step_precomp* const reduc_precomp);
+void intt_iter(const uint64_t nn, __m256i* const begin, const __m256i* const end, const q120_ntt_step_precomp* const itData, const __m256i* const powomega);
+void intt_iter_red(const uint64_t nn, __m256i* const begin, const __m256i* const end, const q120_ntt_step_precomp* const itData, const __m256i* const powomega,
+                   const q120_ntt_reduc_step_precomp* const reduc_precomp);
+#if DIR == 0
+#define NLEV VF_CAT2(VFT_NTT_NLEV_, N)
+#define LMETA VF_CAT2(VFT_NTT_META_, N)
+#define LREDUC VF_CAT2(VFT_NTT_REDUC_, N)
+#else
+#define NLEV VF_CAT2(VFT_INTT_NLEV_, N)
+#define LMETA VF_CAT2(VFT_INTT_META_, N)
+#define LREDUC VF_CAT2(VFT_INTT_REDUC_, N)
+#endif
+uint64_t VF_LX[16 * NLEV], VF_LT[16 * NLEV], VF_LT1[16 * NLEV], VF_LOUT[16 * NLEV];
+unsigned VF_LBLK[NLEV]; /* vectors of the block that the level function was run on */
+
+void h_ntt_levels(void) {
+  const q120_ntt_step_precomp* meta = LMETA;
+  q120_ntt_reduc_step_precomp reduc = LREDUC;
+  for (unsigned l = 0; l < NLEV; ++l) {
+    uint64_t* data = vf_alloc_words_raw(16);
+    uint64_t* pw = vf_alloc_words_raw(16);
+    for (unsigned i = 0; i < 16; ++i) {
+      data[i] = VF_LX[16 * l + i] = vf_u64();
+      VF_LT[16 * l + i] = vf_u64();
+      VF_LT1[16 * l + i] = vf_u64();
+#ifndef __CPROVER__
+      /* native replay: the high half is what the real builder stores for this low half */
+      VF_LT[16 * l + i] %= QS[i % 4];
+      VF_LT1[16 * l + i] = (VF_LT[16 * l + i] << meta[l].half_bs) % QS[i % 4];
+#endif
+      pw[i] = (VF_LT1[16 * l + i] << 32) + VF_LT[16 * l + i];
+    }
+    unsigned blk = 4;
+    __m256i* b = (__m256i*)data;
+#if DIR == 0
+    if (l == 0) {
+      ntt_iter_first(b, b + 4, meta, (const __m256i*)pw);
+    } else {
+      const uint64_t nn_real = (uint64_t)N >> (l - 1);
+      blk = nn_real >= 4 ? 4 : 2;
+      if (meta[l].reduce)
+        ntt_iter_red(blk, b, b + blk, meta + l, (const __m256i*)pw, &reduc);
+      else
+        ntt_iter(blk, b, b + blk, meta + l, (const __m256i*)pw);
+    }
+#else
+    if (l + 1 < NLEV) {
+      const uint64_t nn_real = (uint64_t)2 << l;
+      blk = nn_real >= 4 ? 4 : 2;
+      if (meta[l].reduce)
+        intt_iter_red(blk, b, b + blk, meta + l, (const __m256i*)pw, &reduc);
+      else
+        intt_iter(blk, b, b + blk, meta + l, (const __m256i*)pw);
+    } else {
+      if (meta[l].reduce)
+        ntt_iter_first_red(b, b + 4, meta + l, (const __m256i*)pw, &reduc);
+      else
+        ntt_iter_first(b, b + 4, meta + l, (const __m256i*)pw);
+    }
+#endif
+    VF_LBLK[l] = blk;
+    for (unsigned i = 0; i < 16; ++i) VF_LOUT[16 * l + i] = data[i];
+  }
+#ifndef __CPROVER__
+  /* Native confirmation of a failed level step: the step's envelope is an over-approximation, so a violation is only reported if the REAL
+   * whole transform of size N (tables from the real builder) goes wrong on some input.  Oracle independent of the output order: the
+   * transform is linear modulo each prime, so T(x) and T(x mod q) must agree modulo q lane by lane - unless an operation wrapped on the
+   * large operands.  Inputs: the worst-case patterns of the property (all-ones, alternating extremes, just below multiples of q,
+   * single maximal lane) and pseudo-random lanes seeded by the replay words. */
+  {
+    q120_ntt_precomp* pc = DIR == 0 ? q120_new_ntt_bb_precomp(N) : q120_new_intt_bb_precomp(N);
+    uint64_t* x = (uint64_t*)malloc(4 * (size_t)N * 8);
+    uint64_t* y = (uint64_t*)malloc(4 * (size_t)N * 8);
+    uint64_t st = 88172645463325252ull ^ VF_LX[0];
+    for (int trial = 0; trial < 40; ++trial) {
+      for (uint64_t i = 0; i < 4 * (uint64_t)N; ++i) {
+        st ^= st << 13, st ^= st >> 7, st ^= st << 17;
+        uint64_t v;
+        switch (trial) {
+          case 0: v = ~UINT64_C(0); break;
+          case 1: v = ((i / 4) & 1) ? 0 : ~UINT64_C(0); break;
+          case 2: v = ((i / 4) & 1) ? ~UINT64_C(0) : 0; break;
+          case 3: v = (~UINT64_C(0) / QS[i % 4]) * QS[i % 4] - 1; break;
+          case 4: v = (i / 4 == 0) ? ~UINT64_C(0) : 0; break;
+          case 5: v = (i / 4 == (uint64_t)N - 1) ? ~UINT64_C(0) : 0; break;
+          case 6: v = (st & 1) ? ~UINT64_C(0) : 0; break;
+          case 7: v = (st & 1) ? ~UINT64_C(0) - (st >> 40) : (st >> 40); break;
+          default: v = st; break;
+        }
+        x[i] = v;
+        y[i] = v % QS[i % 4];
+      }
+      if (DIR == 0) {
+        q120_ntt_bb_avx2(pc, (q120b*)x);
+        q120_ntt_bb_avx2(pc, (q120b*)y);
+      } else {
+        q120_intt_bb_avx2(pc, (q120b*)x);
+        q120_intt_bb_avx2(pc, (q120b*)y);
+      }
+      for (uint64_t i = 0; i < 4 * (uint64_t)N; ++i)
+        VF_ASSERT(x[i] % QS[i % 4] == y[i] % QS[i % 4], "whole transform: T(x) congruent to T(x mod q) lane by lane (a lazy operation wrapped on large operands)");
+    }
+    free(x);
+    free(y);
+  }
+#endif
+  VF_REACH();
+}
+#endif
